@@ -3,7 +3,7 @@
    Sem.run_binding w p = Def v then the C++ text printed for c, executed in w, returns v.  The property is decided per generated
    program and world by executing the real output (vlib/c01.py); the theorems below fix the reference semantics the executions
    are compared with -- the points the property statement singles out. *)
-From QV Require Import model.Base model.Lang model.Types model.Tir model.Ceval model.Sem proofs.SemProofs.
+From QV Require Import model.Base model.Lang model.Types model.Tir model.Ceval model.Builder model.Sem proofs.SemProofs proofs.ScopeProofs.
 Open Scope Z_scope.
 
 (* int arithmetic: the exact mathematical result, in range -- or undefined (32-bit overflow is never a value) *)
@@ -53,6 +53,29 @@ Theorem C01_partial_null_deref_undefined : forall names this st e o p st1,
   eval names this st e o = Def (VP None, st1) -> eval names this st e (EMember o p) = Undef.
 Proof. exact null_deref_undefined. Qed.
 Print Assumptions C01_partial_null_deref_undefined.
+
+(* let / const scoping.  In the reference semantics: after any statement that is not itself a declaration (a block, an if, a switch
+   with all its clauses, whatever they declare) exactly the variables visible before are visible again, in the same order -- every
+   name denotes the variable it denoted before.  In the model of the translator (typedexpr.rs walk_stmt, tied to the code by the
+   IR correspondence of C05/C06): the name table after such a statement is the name table before it.  Finding F21 was the code
+   violating the second statement for switch clauses. *)
+Theorem C01_partial_semantics_scope : forall names this s st e o st' e',
+  match s with SDecl _ _ => False | _ => True end ->
+  exec names this st e s = Def (o, st', e') -> map fst e' = map fst e.
+Proof. exact exec_scope_restored. Qed.
+Print Assumptions C01_partial_semantics_scope.
+Theorem C01_partial_translator_scope : forall s E env brk, scoped s = true ->
+  forall st r st', walk_stmt E env brk s st = (V r, st') -> snd r = env.
+Proof. intros s E env brk H. exact (walk_stmt_no_leak s E env brk H). Qed.
+Print Assumptions C01_partial_translator_scope.
+(* both are about something: a clause-level declaration shadowing an outer variable, read after the switch *)
+Example C01_scope_ex :
+  let w := {| objs := [{| o_b := true; o_i := 0; o_u := 3; o_s := []; o_next := None |}]; trace := [] |} in
+  run_binding [] 0 w "i"
+    (CStmt (SBlock [SDecl DLet [("x"%string, None, Some (EInt 1))];
+                    SSwitch (EMember EThis "i") [(EInt 0, [SDecl DLet [("x"%string, None, Some (EInt 2))]; SBreak false])] None;
+                    SReturn (Some (EIdent "x"))])) = Def (VI 1).
+Proof. vm_compute. reflexivity. Qed.
 
 (* non-vacuity: a switch whose default stands in the middle, with fall-through and a break under a nested if *)
 Example C01_ex :
